@@ -5,6 +5,7 @@
 import ApiFu.C17.Model
 import ApiFu.C17.Spec
 import ApiFu.C17.Lemmas
+import ApiFu.C17.UrlCodec
 
 namespace ApiFu.C17
 
@@ -270,6 +271,42 @@ theorem transport_same_request {J : Type} (c : Codec J) (e : Encoders J) (law : 
     have h3 : ex = none := hc
     subst h3
     simp [decode, encode, abstractWS, law.message_roundtrip, law.payload_roundtrip, WsKind.startType, wsDecide]
+
+/-! ## 5b. The URL half of the codec hypothesis is a theorem -/
+
+/-- **goUrl_lawful** — for the byte-level transliteration of Go's net/url (`QueryEscape`,
+    `QueryUnescape`, `ParseQuery`, `Values.Get`; `UrlCodec.lean`, tied to the real package by the
+    harness) the `url_get` law holds outright: `URL.Query()` finds under each name the first value
+    a client escaped for it — for all names and values, including `&`, `=`, `;`, `%`, `+`, spaces
+    and non-ASCII text. -/
+theorem goUrl_lawful (kvs : List (String × String)) (k : String) :
+    Url.goUrlGet (Url.goUrlEncode kvs) k = kvs.lookup k :=
+  Url.goUrl_get_encode kvs k
+
+/-- The JSON / MIME half of `Lawful` (what remains a hypothesis). -/
+structure JsonLawful {J : Type} (c : Codec J) (e : Encoders J) : Prop where
+  map_roundtrip : ∀ j, c.unmarshalMap (e.marshalMap j) = .obj j
+  map_nonempty : ∀ j, e.marshalMap j ≠ ""
+  body_roundtrip : ∀ r : Req J, c.decodeBody (e.encodeBody r) = .ok r.query r.operationName r.variables r.extensions
+  media_json : c.mediaType "application/json" = .json
+  media_graphql : c.mediaType "application/graphql" = .graphql
+  message_roundtrip : ∀ ty id p, c.decodeMessage (e.encodeMessage ty id p) = some (ty, id, some p)
+  payload_roundtrip : ∀ q v op, c.decodePayload (e.encodePayload q v op) = .ok q v op
+
+/-- **lawful_of_goUrl** — a codec whose URL functions are the net/url transliteration is lawful as
+    soon as its JSON / MIME half is: `transport_same_request` and everything after it then rest on
+    the JSON / MIME laws alone. -/
+theorem lawful_of_goUrl {J : Type} (c : Codec J) (e : Encoders J)
+    (hget : c.urlGet = Url.goUrlGet) (henc : e.urlEncode = Url.goUrlEncode) (hj : JsonLawful c e) :
+    Lawful c e where
+  url_get kvs k _ := by rw [hget, henc]; exact Url.goUrl_get_encode kvs k
+  map_roundtrip := hj.map_roundtrip
+  map_nonempty := hj.map_nonempty
+  body_roundtrip := hj.body_roundtrip
+  media_json := hj.media_json
+  media_graphql := hj.media_graphql
+  message_roundtrip := hj.message_roundtrip
+  payload_roundtrip := hj.payload_roundtrip
 
 /-! ## 6. Hence every transport yields the response of `core` -/
 
